@@ -105,10 +105,10 @@ def eqNeKnown (l r : Expr) : Option (Int × Expr) :=
     | some k => some (k, l)
     | none => none
 
-/-- astutils.cpp:1696-1705 -/
+/-- astutils.cpp:1696-1705 (since e3a434e: only a comparison with 1 stands for the boolean itself) -/
 def eqNeCompare (k : Int) (exprIsNot : Bool) (op : BinOp) : Bool :=
   (k == 0 && exprIsNot && op == .eq) || (k == 0 && !exprIsNot && op == .ne) ||
-  (k != 0 && exprIsNot && op == .ne) || (k != 0 && !exprIsNot && op == .eq)
+  (k == 1 && exprIsNot && op == .ne) || (k == 1 && !exprIsNot && op == .eq)
 
 def Expr.isCmp : Expr → Bool
   | .bin _ o _ _ => o.isCmp
@@ -358,19 +358,6 @@ def annOK (S : Sem) : Expr → Bool
   | .bin a op l r =>
     annOK S l && annOK S r && knownOK S (.bin a op l r) && (!astIsBool (.bin a op l r) || op.isCmp || op.isLogic)
 
-/-- excludes the inputs on which the `==|!=` rule of `isSameExpression` (astutils.cpp:1696-1705) is unsound (finding
-    F03a): an `==`/`!=` whose one operand has a Known value other than 0 and 1 while the other operand is "bool like" -/
-def eqNeSafe : Expr → Bool
-  | .lit _ _ => true
-  | .var _ _ => true
-  | .un _ _ e => eqNeSafe e
-  | .bin _ op l r =>
-    eqNeSafe l && eqNeSafe r &&
-    (!(op == .eq || op == .ne) ||
-      (match eqNeKnown l r with
-       | some (k, vt) => k == 0 || k == 1 || !boolLike .cop vt
-       | none => true))
-
 def subRange (a b : Ty) : Bool := decide (tmin b ≤ tmin a) && decide (tmax a ≤ tmax b)
 
 /-- the operand keeps its value when converted to `T`: a constant expression by its value (which must also be a
@@ -393,5 +380,66 @@ def cmpSafe (S : Sem) : Expr → Bool
     cmpSafe S l && cmpSafe S r &&
     (!(op.isCmp && (l.ann.known.isSome || r.ann.known.isSome)) ||
       (fits S (uac (tyOf S l) (tyOf S r)) l && fits S (uac (tyOf S l) (tyOf S r)) r))
+
+/-! ### the `==|!=` rule before e3a434e (finding F03a, fixed): kept only for the counterexample theorem
+`same_sound_prefix_counterexample` of Props/C03.lean -/
+
+/-- astutils.cpp:1696-1705 before e3a434e: any Known value other than 0 was treated like 1 -/
+def eqNeCompareOld (k : Int) (exprIsNot : Bool) (op : BinOp) : Bool :=
+  (k == 0 && exprIsNot && op == .eq) || (k == 0 && !exprIsNot && op == .ne) ||
+  (k != 0 && exprIsNot && op == .ne) || (k != 0 && !exprIsNot && op == .eq)
+
+def eqNeCondOld (cond : Expr) (ce : Ctx) (expr : Expr) : Option (Ctx × Expr × Ctx × Expr) :=
+  match cond with
+  | .bin _ op l r =>
+    if expr.isCmp then none
+    else
+      match eqNeKnown l r with
+      | none => none
+      | some (k, varTok1) =>
+        match expr.notArg with
+        | some x =>
+          if eqNeCompareOld k true op && boolLike .cop varTok1 && boolLike .lnot x then some (.cop, varTok1, .lnot, x) else none
+        | none =>
+          if eqNeCompareOld k false op && boolLike .cop varTok1 && boolLike ce expr then some (.cop, varTok1, ce, expr) else none
+  | _ => none
+
+def eqNePickOld (c1 : Ctx) (e1 : Expr) (c2 : Ctx) (e2 : Expr) : Option (Ctx × Expr × Ctx × Expr) :=
+  if e1.isEqNe then eqNeCondOld e1 c2 e2
+  else if e2.isEqNe then eqNeCondOld e2 c1 e1
+  else none
+
+/-- `isSameExpression` before e3a434e -/
+def isSameFOld (cpp : Bool) : Nat → Ctx → Expr → Ctx → Expr → Bool
+  | 0, _, _, _, _ => false
+  | n + 1, c1, e1, c2, e2 =>
+    match (if boolLike c2 e2 then e1.dblNot else none) with
+    | some x => isSameFOld cpp n .lnot x c2 e2
+    | none =>
+    match (if boolLike c1 e1 then e2.dblNot else none) with
+    | some y => isSameFOld cpp n c1 e1 .lnot y
+    | none =>
+    if !(e1.strEq e2) && diffKnown e1 e2 then false
+    else if sameConst e1 e2 then true
+    else if !(e1.strEq e2) then
+      match flipPick e1 e2 with
+      | some (a, b, c, d) => isSameFOld cpp n .cop a .cop b && isSameFOld cpp n .cop c .cop d
+      | none =>
+        match eqNePickOld c1 e1 c2 e2 with
+        | some (ca, a, cb, b) => isSameFOld cpp n ca a cb b
+        | none => false
+    else
+      match e1, e2 with
+      | .lit _ _, .lit _ _ => true
+      | .var _ _, .var _ _ => true
+      | .un _ o1 x1, .un _ _ x2 => isSameFOld cpp n (childCtxU o1) x1 (childCtxU o1) x2
+      | .bin _ o1 l1 r1, .bin _ _ l2 r2 =>
+        let cc := childCtxB o1
+        (isSameFOld cpp n cc l1 cc l2 && isSameFOld cpp n cc r1 cc r2) ||
+        (plusOk cpp o1 l1 r1 && o1.commutative && isSameFOld cpp n cc r1 cc l2 && isSameFOld cpp n cc l1 cc r2)
+      | _, _ => false
+
+def isSameOld (cpp : Bool) (c1 : Ctx) (e1 : Expr) (c2 : Ctx) (e2 : Expr) : Bool :=
+  isSameFOld cpp (e1.size + e2.size) c1 e1 c2 e2
 
 end Cppcheck.CondExpr
